@@ -4,6 +4,7 @@ import (
 	"fmt"
 	"go/constant"
 	"go/token"
+	"go/types"
 	"strings"
 
 	"golang.org/x/tools/go/ssa"
@@ -38,8 +39,9 @@ func (a AV) String() string {
 }
 
 type Scenario struct {
-	Terms map[string]int64 // path -> rank / integer value; NilRank = nil
-	Bools map[string]bool  // path of bool-valued call or field -> value
+	Terms      map[string]int64 // path -> rank / integer value; NilRank = nil
+	Bools      map[string]bool  // path of bool-valued call or field -> value
+	DefaultInt *int64           // if set: value of integer-typed terms the scenario does not mention (counters irrelevant to the table)
 }
 
 type Effect struct {
@@ -204,6 +206,9 @@ func (ev *evaluator) idxString(v ssa.Value) string {
 	if k, ok := constInt(v); ok {
 		return fmt.Sprint(k)
 	}
+	if pa, ok := v.(*ssa.Parameter); ok {
+		return "$" + pa.Name()
+	}
 	return "*"
 }
 
@@ -347,6 +352,11 @@ func (ev *evaluator) eval(v ssa.Value, d int) AV {
 	}
 	if b, ok := ev.sc.Bools[p]; ok {
 		return AV{Kind: "bool", B: b}
+	}
+	if ev.sc.DefaultInt != nil {
+		if bt, ok := v.Type().Underlying().(*types.Basic); ok && bt.Info()&types.IsInteger != 0 {
+			return AV{Kind: "int", I: *ev.sc.DefaultInt}
+		}
 	}
 	return AV{Kind: "unknown", Term: p}
 }
